@@ -191,6 +191,8 @@ def run(ctx):
         ctx.cov["disagreements_checked"] = len(disagree)
         if report_nonstandard(ctx, uniq, results, nonstd):
             concrete = True
+        if report_unexplained(ctx, env, uniq, results, disagree):
+            concrete = True
         gbad = grammar_cases(ctx, env)
     else:
         gbad = []
@@ -267,6 +269,37 @@ def classify_and_report(ctx, env, uniq, results, failing):
             if ctx.finding(key, what, replay):
                 reported = True
     return reported
+
+
+def report_unexplained(ctx, env, uniq, results, disagree):
+    """Disagreeing cases on which the implementation's round trip FAILS although the model of the
+    recognised writer says the tree is read back: a failure that the known classes do not explain,
+    whatever shape it shrinks to.  Reported with the concrete (shrunk) tree."""
+    reported = 0
+    todo = sorted((i for i in disagree if not results[i]["impl_ok"]), key=lambda i: T.size(uniq[i][1]))
+    for i in todo[:12]:
+        if reported >= 3:
+            break
+        t = uniq[i][1]
+        unreadable = results[i]["reread"] is None
+
+        def fails(cand):
+            r = env.roundtrip(cand)
+            return (not r["impl_ok"]) and ((r["reread"] is None) == unreadable)
+        small = T.shrink(t, fails)
+        verdict = ctx.coq_eval_show(HEADER, ["model_rt impl_rules %s" % T.coq_expr(small)])[0]
+        if not verdict.lstrip("= ").startswith("true"):
+            continue     # the model explains this failure (a known class); the disagreement is elsewhere
+        res = env.roundtrip(small)
+        ctx.violation({"property": "C02", "key": "unexplained/" + ("+".join(sorted(set(T.reasons(small)))) or "no-known-shape"),
+                       "tree": T.show(small), "tree_json": jsonable(small), "written": res["text"],
+                       "reread": T.show(res["reread"]) if res["reread"] else None, "reader_error": res["error"],
+                       "found_from": T.show(t),
+                       "what": "the implementation does not read this tree back although the model of the writer "
+                               "recognised by translate.py does",
+                       "replay": "props/C02/trees.py: Env().roundtrip(tree)"})
+        reported += 1
+    return reported > 0
 
 
 def report_nonstandard(ctx, uniq, results, nonstd):
